@@ -21,6 +21,8 @@ func propC02(r *Report, tier string) {
 	ruleSuccessorKeepsIncrementedByte(r, "K8-prefix-successor", func(rel string) bool { return !strings.HasPrefix(rel, storeBase) }, 3)
 	ruleUnionConsumesAllCollections(r, "K14-union-consumes-all-inputs", "index/scorch.(*OptimizeTFRDisjunctionUnadorned).Finish", "IndexSnapshotTermFieldReader", "iterators")
 	ruleNilActualBitmapIsNotEmpty(r, "K6-nil-actual-bitmap-is-not-empty")
+	rulePooledLocationsDeepCopied(r, "K6-pooled-locations-deep-copied")
+	ruleHeapRestoredBeforePeek(r, "K5-heap-restored-before-peek")
 	r.Floor("K8-exclusion-at-read-sites", 6)
 	r.Floor("K5-per-segment-state-reset", 3)
 	r.Floor("K6-shared-bitmaps-immutable", 2)
